@@ -70,7 +70,11 @@ def run_translators(names, scratch):
     new, changed = {}, []
     for n in names:
         mod = importlib.import_module("translate." + n)
-        text = mod.emit(os.path.join(scratch, "traits"))
+        try:
+            text = mod.emit(os.path.join(scratch, "traits"))
+        except Exception as e:      # fail closed: an unreadable source breaks the proof obligations
+            text = ("/- translator %s FAILED on the working tree: %s: %s -/\n"
+                    "theorem translator_failed : False := by decide\n" % (n, type(e).__name__, str(e).replace("-/", "- /")[:500]))
         new[mod.TARGET] = text
         path = os.path.join(LEAN, "TraitsVerif", "Generated", mod.TARGET)
         old = open(path).read() if os.path.exists(path) else None
